@@ -40,7 +40,8 @@ RULE = ("Arms of C05 (the suite's 6R arm, the five bundled URDFs, random 1..7-jo
 ASSUMPTIONS = [
     "reference Jacobian: Richardson central differences (steps >= 1e-4) of the ARM'S OWN FK, vee(dT T^-1); the "
     "comparison tolerance is the property's 1e-6*|J| (Frobenius norm of the expected matrix, at least 1); 1e-5*|J| for "
-    "numericalJacobian (itself a second-order difference quotient with step 5e-4)",
+    "numericalJacobian (itself a second-order difference quotient with step 5e-4); in the space clause the same stencil is "
+    "applied to the model's own FK on every case and must reproduce the model's analytic Jacobian to 1e-8 (harness self-check)",
     "when a joint value lies in the open NearZero band (1e-9, 2e-6) the library drops that joint's rotation in some "
     "products and not in others: tolerance 5e-6*|J| per such joint (DESIGN 1.3), cases labelled",
     "wrench data order is [moment; force] (Wrench.getMoment = data[0:3]) and twists are [w; v]: the natural pairing "
@@ -268,7 +269,7 @@ def compare(got, want, rtol, what, scale=None):
     scale = fro(want) if scale is None else max(1.0, scale)
     d = float(np.abs(got - want).max()) if got.size else 0.0
     if d > rtol * scale:
-        idx = np.unravel_index(int(np.abs(got - want).argmax()), got.shape)
+        idx = tuple(int(v) for v in np.unravel_index(int(np.abs(got - want).argmax()), got.shape))
         raise Violation("%s: max |diff| %.3g at %s > %.3g (= %.1e * %.3g)" % (what, d, idx, rtol * scale, rtol, scale))
 
 
@@ -283,7 +284,6 @@ def _apply_prep(arm, model, prep, ctx, state):
             model.B = O.pose_from_taa(base)
             model.M = model.M0.copy()          # the library re-initialises with the original tool (C05 admits both)
             state["moved"] = True
-            state["tool_changed_after_move"] = False
             state["tools"].append(model.M0.copy())
         elif name == "fk":
             th = A.decode_theta(model, op["theta"], inside=True)
@@ -320,7 +320,6 @@ def _apply_prep(arm, model, prep, ctx, state):
                 sut(arm.setArbitraryHome, tm(np.ascontiguousarray(N)), th.copy())
             model.M = model.M @ X
             state["tool_ops"] += 1
-            state["tool_changed"] = True
             state["tools"].append(model.M.copy())
     return arm
 
@@ -369,8 +368,7 @@ def setup(case, ctx, after_build=None):
     ctx.label("arm " + (spec["kind"] if spec["kind"] != "urdf" else "urdf"))
     ctx.label("n=%d" % n)
     s = Setup()
-    s.state = {"moved": False, "tool_changed": False, "tool_ops": 0, "tools": [model.M0.copy()],
-               "tool_changed_after_move": False, "last_home": None}
+    s.state = {"moved": False, "tool_ops": 0, "tools": [model.M0.copy()], "last_home": None}
     if spec["kind"] == "urdf":
         X = arm._eef_to_last_joint
         s.state["last_home"] = model.M0 @ np.array(X.gTM(), dtype=float) if X is not None else model.M0.copy()
@@ -438,9 +436,19 @@ def c_space(case, ctx):
     sut(arm.FK, th.copy())
     J0 = as_mat(sut(arm.jacobian), (6, n), "jacobian()")
     compare(J0, s.J, rt(s), "jacobian() at the stored state vs d FK/d theta")
-    # independent cross-check of the reference itself against the model (harness sanity, loose): protects the
-    # evidence from a silently broken difference stencil; a mismatch is NOT a library violation by itself.
-    ctx.note("|J|", fro(s.J))
+    # harness self-check (no library involved): the same stencil applied to the MODEL's forward kinematics must
+    # reproduce the model's analytic space Jacobian far below the comparison tolerance, otherwise the check is broken
+    model = s.model
+
+    def fm(x):
+        return A.model_fk(model, x, clamped=False)
+    Tm_inv = O.inv(fm(th))
+    Jfd = np.stack([O.vee6(dT @ Tm_inv) for dT in richardson_cols(fm, th)], axis=1)
+    Jan = A.model_jac_space(model, th, clamped=False)
+    err = float(np.abs(Jfd - Jan).max()) / fro(Jan)
+    ctx.note("stencil self-check rel err", err)
+    if err > 1e-8:
+        raise AssertionError("difference stencil inaccurate on the model: rel err %.3g" % err)
 
 
 def c_body(case, ctx):
@@ -749,19 +757,19 @@ def tool_change_last_link_region(case, message):
 _QD = {"qdot": _vecn(10.0)}
 
 CLAUSES = [
-    Clause("space_jacobian_is_dfk", c_space, cases(), 320, 2400),
-    Clause("body_jacobian_is_adjoint_of_space", c_body, cases(), 320, 2400),
+    Clause("space_jacobian_is_dfk", c_space, cases(), 320, 5000),
+    Clause("body_jacobian_is_adjoint_of_space", c_body, cases(), 320, 5000),
     Clause("link_jacobian_is_dfklink", c_link,
-           cases({"link": st.integers(0, 6), "link_homes": _link_homes()}), 260, 2000),
-    Clause("eetrans_jacobian_is_world_aligned_body", c_eetrans, cases(), 260, 2000),
-    Clause("numerical_jacobian_matches", c_numerical, cases(), 260, 2000),
-    Clause("velocity_is_jacobian_times_rates", c_velocity, cases(_QD), 260, 2000),
+           cases({"link": st.integers(0, 6), "link_homes": _link_homes()}), 260, 4000),
+    Clause("eetrans_jacobian_is_world_aligned_body", c_eetrans, cases(), 260, 4000),
+    Clause("numerical_jacobian_matches", c_numerical, cases(), 260, 4000),
+    Clause("velocity_is_jacobian_times_rates", c_velocity, cases(_QD), 260, 4000),
     Clause("statics_is_transpose_power_identity", c_statics,
-           cases({"qdot": _vecn(10.0), "wrench": wrench_inputs()}), 300, 2400),
+           cases({"qdot": _vecn(10.0), "wrench": wrench_inputs()}), 300, 5000),
     Clause("statics_inverse_recovers_wrench", c_statics_inv,
            cases({"wrench": wrench_inputs(), "theta_mode": st.just("generic")}, theta=generic_theta_codes(),
-                 specs=st.one_of(arm_specs(nmin=6, nmax=7, limits="default"), arm_specs(nmin=6, nmax=7))), 260, 2000),
+                 specs=st.one_of(arm_specs(nmin=6, nmax=7, limits="default"), arm_specs(nmin=6, nmax=7))), 260, 4000),
     Clause("statics_with_link_masses", c_link_masses,
-           cases({"wrench": wrench_inputs(), "mass": mass_inputs()}), 320, 2400,
+           cases({"wrench": wrench_inputs(), "mass": mass_inputs()}), 320, 5000,
            region=tool_change_last_link_region),
 ]
